@@ -252,6 +252,24 @@ func (e *Engine) invoke(st *State, c *ssa.CallCommon, recv Val, args []Val, pos 
 			return
 		}
 	}
+	// the method may be declared in an embedded interface (e.g. AppID embeds encoding.BinaryUnmarshaler)
+	if sg, ok := c.Method.Type().(*types.Signature); ok && sg.Recv() != nil {
+		decl := ifaceName(sg.Recv().Type()) + "." + c.Method.Name()
+		if decl != full {
+			if h, ok := libIface[decl]; ok {
+				e.Assumed["interface spec: "+decl] = true
+				h(e, st, c, recv, args, pos, k)
+				return
+			}
+			if ic, ok := e.Specs.Ifaces[ifaceName(sg.Recv().Type())]; ok {
+				if ct, ok := ic.Methods[c.Method.Name()]; ok {
+					e.Assumed["interface contract (assumed for unknown implementations): "+decl] = true
+					e.modularCallSig(st, c.Signature(), c.Method.Name(), ct, append([]Val{recv}, args...), it, pos, k)
+					return
+				}
+			}
+		}
+	}
 	panic(e.unsupported("interface method without contract: " + full))
 }
 
@@ -484,7 +502,7 @@ func (e *Engine) copyOp(st *State, c *ssa.CallCommon, args []Val, pos token.Pos)
 
 // viewWriteBack propagates a write through a slice view of a heap-stored array back to the array token.
 func (e *Engine) viewWriteBack(st *State, d Val) {
-	vo, ok := e.viewOrigins[d.slArr().ID]
+	vo, ok := st.Views[d.slArr().ID]
 	if !ok {
 		return
 	}
